@@ -83,6 +83,8 @@ def run(res, tier, seed):
     lib_reqs, lib_meta = [], []
     for j in range(n):
         k = rng.random()
+        if j < 4:
+            k = 0.9          # the mixed class (parse errors + an error of graph construction) first
         if k < 0.5:
             s, _ = prog.program(rng, sloppy=rng.choice([0.2, 0.4]), multi_ret=False)
         elif k < 0.75:
@@ -94,7 +96,20 @@ def run(res, tier, seed):
             s += "".join(f"{lb}:\n    nop\n" for lb in sorted(used - defined)) + "    ret\n"
         else:
             s, _ = prog.program(rng, sloppy=0.3, multi_ret=False)
-            s = s.replace("j endif", "j undefined_label", 1) if rng.random() < 0.5 else s + "main:\n"
+            if "j endif" in s and rng.random() < 0.5:
+                s = s.replace("j endif", "j undefined_label", 1)
+            elif rng.random() < 0.5:
+                s = s + "main:\n"
+            else:
+                s = s.replace("main:\n", "main:\n    beqz a0, nowhere_defined\n", 1)
+            if j % 2 == 0 or rng.random() < 0.5:
+                # parse errors and a graph-construction error in the same input: every channel
+                # reports both
+                ls = s.split("\n")
+                for _ in range(rng.randrange(1, 3)):
+                    ls.insert(rng.randrange(1, len(ls)), "    " + rng.choice(
+                        ["mul a0, a0", ".bogus 3", "foo a0, a1", "addi a0, a0, 99999999999", "li a0, 1 +"]))
+                s = "\n".join(ls)
         s = "".join(ch for ch in s if ord(ch) < 128 or ch == "é")
         d = os.path.join(root, str(j))
         os.makedirs(d, exist_ok=True)
